@@ -4,8 +4,12 @@
 # it applies each patch to /repo and reverts it)
 TIER="${1:-quick}"
 cd /verif || exit 2
+# SWEEP_ONLY / SWEEP_SKIP: extended regular expressions on the property id (e.g. SWEEP_SKIP='C10|C11');
+# with SEED_OVERLAY=1 the patches are laid over /repo at build time instead of being applied to it
 for d in seeded/*/; do
   n=$(basename "$d"); id=${n%%-*}; label=${n#*-}
+  if [ -n "${SWEEP_ONLY:-}" ] && ! echo "$id" | grep -Eq "^(${SWEEP_ONLY})$"; then continue; fi
+  if [ -n "${SWEEP_SKIP:-}" ] && echo "$id" | grep -Eq "^(${SWEEP_SKIP})$"; then continue; fi
   tmp=$(mktemp -d /tmp/sweep-XXXXXX)
   cp "$d"/patch.diff "$d"/demo_test.go "$tmp"/; [ -f "$d/notes.txt" ] && cp "$d/notes.txt" "$tmp"/
   ./seedtest.sh "$id" "$label" "$tmp" "$TIER" 2>&1 | tail -1 | cut -c1-200
